@@ -21,7 +21,7 @@ CLAIMED = {
    design="4/C20"),
  "C06": dict(
    technique="differential property testing of two implementations (static analyzer vs interpreter) over generated well-typed, ill-typed and text-damaged lines and programs (word deletion / duplication / swap / truncation, `$` toggles, fractional numerals, substitution by cells, calls of wrong arity or kind, punctuation, keywords; one case in three in shuffled file order), with forced start lines and variable environments",
-   text="Direction 1: every generated program the analyzer accepts is executed by RUN and from each of its lines under three variable environments and mixed replies; no execution may end in a syntax error, TYPE MISMATCH or UNDEF'D STATEMENT. Direction 2: every analyzer-rejected line without conditionals, control transfers, INPUT or user functions is run alone and must fail. Two confirmed disagreements that have no small repair are recorded as known findings under narrow keys.",
+   text="An exhaustive boundary family first checks 1536 single statements whose expression is nested 90-105 levels deep (parentheses, ABS, subscripts) around the 100-level cap both sides enforce. Direction 1: every generated program the analyzer accepts is executed by RUN and from each of its lines under three variable environments and mixed replies; no execution may end in a syntax error, TYPE MISMATCH or UNDEF'D STATEMENT. Direction 2: every analyzer-rejected line without conditionals, control transfers, INPUT or user functions is run alone and must fail. Two confirmed disagreements that have no small repair are recorded as known findings under narrow keys.",
    note="Branch coverage is by start line x environment, not exhaustive over conditions; the straight-line test is decided conservatively on the text.",
    design="4/C06"),
  "C07": dict(
@@ -51,7 +51,7 @@ CLAIMED = {
    design="4/C11"),
  "C16": dict(
    technique="invariant checking over generated sessions (snapshot hook after every host call) plus an exhaustive list of cap-boundary scripts with exact expectations; libFuzzer target (sessions decoded from bytes, invariants in-target) in the thorough tier",
-   text="After every host call of generated sessions (ill-typed writes through every path, C01's structured and hostile sessions) the snapshot must show <= 32 frames, <= 32 open loops over distinct variables, arrays whose cell count equals the product of their dimensions and is <= 10000, and name-suffix typing of every scalar, array and parameter binding. Sessions of FOR / NEXT / GOSUB typed one statement per turn are included. Cap-boundary scripts (GOSUB depth 31/32/33, 32/33 nested FORs, re-entered and abandoned loops thousands of times, DIM products 9999/10000/10001, 4+-subscript implicit arrays, ill-typed FORs and undefined jumps executed at the caps) must report OUT OF MEMORY exactly beyond the cap and leave the interpreter usable.",
+   text="After every host call of generated sessions (ill-typed writes through every path, C01's structured and hostile sessions) the snapshot must show <= 32 frames, <= 32 open loops over distinct variables, arrays whose cell count equals the product of their dimensions and is <= 10000, and name-suffix typing of every scalar, array and parameter binding. Sessions of FOR / NEXT / GOSUB typed one statement per turn are included. Cap-boundary scripts (GOSUB depth 31/32/33, 32/33 nested FORs, re-entered and abandoned loops thousands of times, DIM products 9999/10000/10001, 4+-subscript implicit arrays, ill-typed FORs and undefined jumps executed at the caps, direct-mode GOSUB / FOR / FN calls at a STOP breakpoint taken at the caps) must report OUT OF MEMORY exactly beyond the cap and leave the interpreter usable.",
    note="Observation through the read-only snapshot hook.",
    design="4/C16"),
  "C17": dict(
@@ -91,7 +91,7 @@ CLAIMED = {
    design="4/C14"),
  "C03": dict(
    technique="model-based property testing: grammar-generated structured programs (proptest, shrinking) run on the real interpreter and on an independent reference interpreter; outputs and (error kind, line) compared",
-   text="Programs are generated as structured values (nested FOR incl. NEXT of outer variables, loops left by GOTO, guarded backward jumps, GOSUB from THEN/ELSE, recursion to the 32-frame cap, READ/DATA/RESTORE, DIM/implicit arrays, DEF with dynamic scoping, all documented ELSE forms, injected runtime failures), laid out on numbered lines, rendered with random spacing/case and RUN; printed output and failure (kind, line) must equal those of a reference interpreter written from the documented semantics. Sampling of an unbounded program space; class histograms in the evidence show what was reached.",
+   text="An exhaustive boundary family first runs 120 programs that leave 1 / 30-34 FOR loops open and re-enter one of them by GOTO or a non-returning GOSUB (the 32-loop limit met by FOR re-entry). Programs are generated as structured values (nested FOR incl. NEXT of outer variables, loops left by GOTO, guarded backward jumps, GOSUB from THEN/ELSE, recursion to the 32-frame cap, READ/DATA/RESTORE, DIM/implicit arrays, DEF with dynamic scoping, all documented ELSE forms, injected runtime failures), laid out on numbered lines, rendered with random spacing/case and RUN; printed output and failure (kind, line) must equal those of a reference interpreter written from the documented semantics. Sampling of an unbounded program space; class histograms in the evidence show what was reached.",
    note="Trusts harness/src/model.rs (reference interpreter over the AST, ~700 lines) and the renderer; generated programs stay inside the documented ELSE forms and use only identifiers made of non-keyword letters.",
    design="4/C03"),
  "C02": dict(
